@@ -371,3 +371,17 @@ pub fn gc_spill_seeds() -> Vec<Seed> {
         .filter_map(|k| seed_gc_spill(*k))
         .collect()
 }
+
+/// A queue whose payload buffer is large compared with its oldest records (so that a small
+/// head truncation evicts a small fraction of it).
+pub fn seed_big_buffer(q: u8) -> Seed {
+    let mut p = Planner::new();
+    p.push(Op::Create(QA)).push(Op::Create(QB));
+    p.push(Op::app(q, Pos::Auto, Sz::L))
+        .push(Op::app(q, Pos::Auto, Sz::S5))
+        .push(Op::app(q, Pos::Auto, Sz::XL))
+        .push(Op::app(q, Pos::Auto, Sz::XL))
+        .push(Op::app(q, Pos::Auto, Sz::XL))
+        .push(Op::app(q, Pos::Auto, Sz::XL));
+    p.seed(&format!("big-buffer:{}", q))
+}
